@@ -162,7 +162,7 @@ func vfC12Gen(rt *rapid.T) vfC12Case {
 		}
 		return c
 	}
-	c.Ops = rapid.SliceOfN(opGen, minOps, maxOps).Draw(rt, "ops")
+	c.Ops = vfListOf(rt, "ops", opGen, minOps, maxOps)
 	return c
 }
 
@@ -299,6 +299,7 @@ func vfLegitFlush(before, after *vfHNSWSnap) (bool, string) {
 const vfKF2 = "KF-2"
 
 func vfC12Run(c vfC12Case, ctx *vfCtx) *vfViolation {
+	ctx.HistoryLen("history", len(c.Ops))
 	kind := DistanceKind(c.Metric)
 	idx, err := NewHNSWIndex(c.Dim, kind, c.M, c.EfC, c.EfS)
 	if err != nil {
